@@ -109,6 +109,11 @@ def enumerate_cases(tier: str):
             for i in range(1, nodes + 1)
         }
         yield {"kind": "direct", "registry": reg, "legacy_nulls": False}
+    for count in (255, 256):
+        reg = {str(i): {"node_id": i, "node_type": 17, "protocol_version": "2.0", "sketch_name": "", "sketch_version": "", "battery_level": 0, "heartbeat": 0,
+                        "sleeping": False, "children": {}} for i in range(256 - count, 256)}
+        yield {"kind": "direct", "registry": reg, "legacy_nulls": True}
+    yield {"kind": "hist", "version": "2.2", "ops": [["rx", f"{i};255;0;0;17;2.2.0\n"] for i in range(0, 256)]}
     # the same round trip in a process whose locale encoding is ASCII (a service started with LANG=C)
     for text in ("Küche °C", "温度センサー", "emoji😀", "plain"):
         yield {"kind": "locale", "text": text}
